@@ -80,7 +80,6 @@ class Local(Backend):
 
     @backoff_on_oserror
     def list_files(self, prefix=''):
-        path_length = len(str(self.path))
         # pathlib strips the trailing slash from paths; we don't want that here
         prefix_dirname, prefix_basename = os.path.split(prefix)
         absolute_dirname = self.path / prefix_dirname
@@ -108,10 +107,10 @@ class Local(Backend):
                     if path.endswith('.tmp'):
                         continue
 
-                    # NOTE: Anything from the standard library seems
-                    # like an overkill here
-                    path = path.replace(os.sep, '/')
-                    yield path[path_length + 1 :]
+                    # NOTE: the scanned paths do not necessarily start with the
+                    # repository path as it was spelled (e.g. '.')
+                    path = os.path.relpath(path, self.path)
+                    yield path.replace(os.sep, '/')
 
     @backoff_on_oserror
     def delete(self, name):
